@@ -363,6 +363,9 @@ impl<'a> Lexer<'a> {
                 return Ok(Token::StringTok);
             }
         }
+        // The loop above stops one byte short of the end. Consume it so that the error span ends
+        // at the end of the text and not in the middle of a multi-byte character.
+        self.bytes.next();
         Err("Unterminated multiline string. Add \"# after the end of your string.".to_string())
     }
 
@@ -377,6 +380,8 @@ impl<'a> Lexer<'a> {
                 return Ok(Token::BlockComment);
             }
         }
+        // See read_until_multiline_string_end.
+        self.bytes.next();
         Err("Unterminated multiline comment. Add |# after the end of your comment.".to_string())
     }
 
